@@ -45,7 +45,7 @@ Proof.
     + (* this step decides: nothing is broadcast *)
       rewrite (E10 eq_refl eq_refl) in *. rewrite app_nil_r.
       destruct E9 as [[b [Hb _]]|[Hpr Hpv]]; [contradiction|].
-      constructor; intros; try discriminate; eauto. rewrite Hpr, Hpv. auto.
+      constructor; intros; try congruence; eauto. all: rewrite ?Hpr, ?Hpv; auto.
     + (* ordinary step before the decision *)
       specialize (E4 eq_refl). specialize (E5 eq_refl). specialize (E11 eq_refl (L2 eq_refl)).
       specialize (L8 eq_refl).
